@@ -594,6 +594,20 @@ func (n *node) checkCardinality() error {
 			return fmt.Errorf("%s: only one '%s' statement is allowed", ErrCard, nt)
 		}
 	}
+	// The table has one entry per kind of deviate, each of them optional:
+	// a deviation needs at least one deviate statement, of whichever kind
+	// (RFC 6020 section 7.18.3)
+	if n.Type() == NodeDeviation {
+		deviates := 0
+		for k, v := range cmap {
+			if k.IsDeviateNode() {
+				deviates += v
+			}
+		}
+		if deviates == 0 {
+			return fmt.Errorf("%s: missing required 'deviate' statement", ErrCard)
+		}
+	}
 	//Ensure only valid nodes
 	for k, _ := range cmap {
 		if _, ok := n.card[k]; k != NodeUnknown && k != NodeDataDef && !ok {
